@@ -55,14 +55,15 @@ def record(tw, rng, n, stats):
         h = 1e-4 * T
         tw.add([{"ev": "Vap", "name": c.name, "vp": vp_desc(c), "T": F(T), "h": F(h),
                  "p": F(c.get_vapor_pressure(T)), "pPlus": F(c.get_vapor_pressure(T + h)),
-                 "pMinus": F(c.get_vapor_pressure(T - h)), "hvap": F(c.get_vaporisation_heat(T))}])
+                 "pMinus": F(c.get_vapor_pressure(T - h)), "pPlus2": F(c.get_vapor_pressure(T + 2 * h)),
+                 "pMinus2": F(c.get_vapor_pressure(T - 2 * h)), "hvap": F(c.get_vaporisation_heat(T))}])
         # --- cooling heat
         t0, t1 = rng.uniform(150.0, 550.0), rng.uniform(150.0, 550.0)
         if rng.random() < 0.05:
             t1 = t0
         tm = t1 + (t0 - t1) * rng.uniform(-0.3, 1.3)      # the split point need not lie inside
         mid = (t0 + t1) / 2
-        hh = rng.choice([0.5, 0.1, 1.0])
+        hh = rng.choice([0.5, 0.1, 1.0, 1e-3, 1e-4])          # also steps of a millikelvin and less (the identity is exact for any step)
         tw.add([{"ev": "Cool", "name": c.name, "hc": hc_desc(c), "t0": F(t0), "t1": F(t1), "tm": F(tm),
                  "q01": F(c.get_cooling_heat(t0, t1)), "q0m": F(c.get_cooling_heat(t0, tm)),
                  "qm1": F(c.get_cooling_heat(tm, t1)), "q10": F(c.get_cooling_heat(t1, t0)),
